@@ -12,10 +12,12 @@ RULE = ('pexpect.run() with its spawn class bound to the simulated pty child, ag
         'or TIMEOUT stops; through the stopping match for a callback stop), each piece once; every line the child read at a prompt '
         'is the response of the first-listed pattern matching there and nothing else was sent; callbacks get the state dictionary '
         'with child and event_count == number of earlier events; exit status == kernel truth and the child is reaped. '
-        'Non-trivial: >= 1 event fired or >= 1 read; distinct by trace digest')
+        'Added later: the same pattern listed twice with different responses (first wins), prompts written in two pieces with a pause '
+        'shorter or longer than the timeout inside them (TIMEOUT ticks in between), spawn options passed through run(**kwargs) '
+        '(searchwindowsize with marker events only, use_poll). Non-trivial: >= 1 event fired or >= 1 read; distinct by trace digest')
 
 ASSUME = ['a non-stopping callback on the EOF key makes run() spin by design (EOF repeats); generated EOF callbacks stop',
-          'real fork/exec is replaced at spawn._spawnpty']
+          'real fork/exec is replaced at the ptyprocess seam of pexpect.pty_spawn (and at spawn._spawnpty)']
 
 
 def nontrivial(scn, info):
